@@ -421,6 +421,23 @@ def inline_option_maps(facts, t):
                 for k, v in enumerate(x[2][1][2]):
                     m[('upvar', k)] = v
                 return subst(interp(facts, cb).ret, m)
+        if x[0] == 'call' and (cinfo(x[1])['def'] or '').endswith(('option::Option::map_or_else', 'option::Option::map_or')) and len(x[2]) == 3 \
+                and x[2][2][0] == 'closure':
+            # `opt.map_or_else(default_fn, |e| body)` / `opt.map_or(default, |e| body)`: either the default or body[e := opt]
+            cb = facts.cb(x[2][2][1])
+            d = x[2][1]
+            if cinfo(x[1])['name'] == 'map_or_else':
+                if d[0] == 'fn':
+                    d = ('call', d[1], ())
+                elif d[0] == 'closure' and facts.cb(d[1]) is not None:
+                    d = subst(interp(facts, facts.cb(d[1])).ret, {('upvar', k): v for k, v in enumerate(d[2])})
+                else:
+                    d = None
+            if cb is not None and d is not None:
+                m = {('param', 2): x[2][0]}
+                for k, v in enumerate(x[2][2][2]):
+                    m[('upvar', k)] = v
+                return ('phi', frozenset({d, subst(interp(facts, cb).ret, m)}))
         return x
     for _ in range(4):   # a spliced body may itself contain a map (a helper returning `first().map(..)`)
         t2 = rebuild(t, f)
@@ -655,6 +672,12 @@ def ret_value(facts, body, evr):
             vals.add(v if not isinstance(v, list) else tuple(v))
             continue
         v = evr.ev(alts[0])
+        if v is None:
+            # an expression over a joined boolean (`!matches!(..)`: `_0 = Not(_3)` with _3 set on both arms): the constants that
+            # reach the return slot along the paths the assumption leaves
+            cv = rc._values_at(0, bb)
+            if len(cv) == 1 and next(iter(cv)) in (0, 1) and isinstance(drop_lv(alts[0]), tuple) and drop_lv(alts[0])[0] == 'unop':
+                v = bool(next(iter(cv)))
         if v is None:
             return None
         vals.add(v)
